@@ -8,15 +8,19 @@ CONTRACTS = {
         requires=["len(all_terms(self.equation)) > 0"],
         raises={"ValueError": "any(TRC(all_terms(self.equation)[j]) != TRC(all_terms(self.equation)[0]) "
                               "    for j in range(1, len(all_terms(self.equation))))"},
-        ghost_entry="g_src = []\n",
+        ghost_entry="g_src = []\ng_at = []\n",
         ghost_after={"self.einsum_ranks = Equation.__get_tensor_ranks(output_ranks)": "g_out = self.einsum_ranks.copy()\n",
-                     "self.einsum_ranks.append(rank)": "g_src = g_src + [k1]\n"},
+                     "self.einsum_ranks.append(rank)": "g_src = g_src + [k1]\n",
+                     # where the rank of the first term sits in the result (explicit witness instead of `in`)
+                     "if rank not in self.einsum_ranks": "g_at = g_at + [self.einsum_ranks.index(rank)]\n"},
         ensures_env="exit",
         ensures=[("output_ranks_first", "self.einsum_ranks[:len(g_out)] == g_out"),
                  ("output_as_written_first",
                   "all(self.einsum_ranks[term_off(out_ranks_of(self), i) + a] == term_rank(out_ranks_of(self).children[i].children[a]) "
                   "    for i in range(len(out_ranks_of(self).children)) for a in range(len(out_ranks_of(self).children[i].children)))"),
-                 ("all_term_ranks_present", "all(r in self.einsum_ranks for r in term_ranks)"),
+                 ("all_term_ranks_present", "len(g_at) == len(term_ranks) and "
+                                            "all(0 <= g_at[j] and g_at[j] < len(self.einsum_ranks) and self.einsum_ranks[g_at[j]] == term_ranks[j] "
+                                            "    for j in range(len(term_ranks)))"),
                  ("rest_from_first_term", "seq_key(term_ranks) == TRK(all_terms(self.equation)[0])"),
                  ("rest_in_order_of_first_term",
                   "len(self.einsum_ranks) == len(g_out) + len(g_src) and "
@@ -29,14 +33,15 @@ CONTRACTS = {
                     inv=[("same_so_far", "all(TRC(all_terms(self.equation)[j]) == TRC(all_terms(self.equation)[0]) for j in range(1, 1 + k))"),
                          ("first", "Counter(term_ranks) == TRC(all_terms(self.equation)[0])")]),
             1: dict(idx="k1", modifies=["self.einsum_ranks[]"],
-                    ghost_vars=["g_src"],
+                    ghost_vars=["g_src", "g_at"],
                     inv=[("prefix", "self.einsum_ranks[:len(g_out)] == g_out and len(self.einsum_ranks) >= len(g_out)"),
                          ("order", "len(self.einsum_ranks) == len(g_out) + len(g_src) and "
                                    "all(0 <= g_src[t] and g_src[t] < k1 and "
                                    "    self.einsum_ranks[len(g_out) + t] == term_ranks[g_src[t]] and term_ranks[g_src[t]] not in g_out "
                                    "    for t in range(len(g_src))) and "
                                    "all(g_src[t] < g_src[u] for u in range(len(g_src)) for t in range(u))"),
-                         ("present", "all(term_ranks[j] in self.einsum_ranks for j in range(k1))"),
+                         ("present", "len(g_at) == k1 and all(0 <= g_at[j] and g_at[j] < len(self.einsum_ranks) and "
+                                     "self.einsum_ranks[g_at[j]] == term_ranks[j] for j in range(k1))"),
                          ("own", "not same_ref(self.einsum_ranks, term_ranks) and not same_ref(self.einsum_ranks, g_out)")]),
         },
     ),
